@@ -5,7 +5,8 @@ has a parameter `B` of the same type (or stores parameter `B` in field `A` altho
 crossed two wires.  Nothing else is flagged: transformations, renamings and parameters without a namesake are not this rule's business,
 so it cannot fire on a behaviour-preserving edit unless that edit renames one of two same-typed namesakes into the other."""
 from .lib import *
-from .sem import key
+from .sem import key, last_seg
+import re
 
 
 def _last_field(e):
@@ -127,7 +128,105 @@ def check_getters(W, ob):
     return n
 
 
+LOSSY = ('take', 'skip', 'step_by', 'filter', 'filter_map', 'take_while', 'skip_while', 'map_while', 'truncate', 'split_off', 'drain', 'retain',
+         'dedup', 'pop', 'remove', 'swap_remove', 'clear', 'nth', 'last', 'first', 'split_at', 'split_first', 'split_last')
+_LOSSY_RE = re.compile(r'(?:^|[^A-Za-z0-9_])(%s)\(' % '|'.join(LOSSY))
+COLLECTION = ('Vec<', 'VecDeque<', 'HashMap<', 'HashSet<', 'BTreeMap<', 'BTreeSet<', '[', 'impl Iterator')
+
+
+def is_collection(ty):
+    return ty is not None and any(c in ty for c in COLLECTION)
+
+
+def check_forwarded(W, ob):
+    """a collection-typed parameter handed on to a same-named, same-typed parameter of the callee (or stored in the same-named field of a struct
+    literal) arrives whole: the forwarding expression contains no element-dropping operation.  Transformations that keep every element (sort, map,
+    a decoder) are not this rule's business."""
+    n = 0
+    for f, t, g, params in call_sites(W):
+        own = {f.local_name(i + 1): (i + 1, f.local_ty(i + 1)) for i in range(f.argc) if f.local_name(i + 1)}
+        for p, ty, e in params:
+            if not p or p not in own or own[p][1] != ty or not is_collection(ty):
+                continue
+            k = key(e)
+            src = 'arg%d' % own[p][0]
+            if not re.search(r'(?:^|[^A-Za-z0-9_])%s(?:$|[^0-9])' % src, k):
+                continue
+            n += 1
+            m = _LOSSY_RE.search(k)
+            if m:
+                ob.fail('forward|%s|%s->%s' % (short(f.path), p, short(g.path)),
+                        '%s hands its parameter `%s` on to parameter `%s` of %s through `%s`: elements are dropped on the way (`%s`)'
+                        % (short(f.path), p, p, short(g.path), m.group(1), k[:160]), where(f, t.line))
+            else:
+                ob.ok('%s forwards `%s` whole to %s' % (short(f.path), p, short(g.path)), where(f, t.line))
+    for f in W.fx.fn_list:
+        if f.derived or f.kind == 'closure':
+            continue
+        own = {f.local_name(i + 1): (i + 1, f.local_ty(i + 1)) for i in range(f.argc) if f.local_name(i + 1)}
+        cx = None
+        for s in f.stmts():
+            if s.k != 'assign' or s.rv.k != 'agg' or s.rv.j.get('ak') != 'adt' or not s.rv.j.get('fields'):
+                continue
+            for fld, op in zip(s.rv.j['fields'], s.rv.ops):
+                if fld not in own or not is_collection(own[fld][1]):
+                    continue
+                cx = cx or W.ctx(f)
+                k = key(cx.expr_operand(op))
+                src = 'arg%d' % own[fld][0]
+                if not re.search(r'(?:^|[^A-Za-z0-9_])%s(?:$|[^0-9])' % src, k):
+                    continue
+                n += 1
+                m = _LOSSY_RE.search(k)
+                lossy_call = None
+                if not m:
+                    # in-place shrinking of the parameter before it is stored (handles.retain(..); Self { handles, .. })
+                    for t in f.calls():
+                        if t.callee.indirect is None and last_seg(t.callee.best) in LOSSY and t.args and \
+                                re.search(r'(?:^|[^A-Za-z0-9_])%s(?:$|[^0-9])' % src, key(cx.expr_operand(t.args[0]))):
+                            lossy_call = last_seg(t.callee.best)
+                if m or lossy_call:
+                    ob.fail('forward|%s|param %s->field' % (short(f.path), fld),
+                            '%s stores its parameter `%s` in the field of that name after `%s`: elements are dropped on the way'
+                            % (short(f.path), fld, m.group(1) if m else lossy_call), where(f, s.line))
+                else:
+                    ob.ok('%s stores `%s` whole' % (short(f.path), fld), where(f, s.line))
+    return n
+
+
+def check_setters(W, ob):
+    """a builder setter `with_X(mut self, v)` stores a value that depends on its argument only: the configuration a chain of setter calls
+    produces does not depend on the order of the calls (a value clamped against *another* field is clamped against whatever that field happened
+    to hold at the time of the call)"""
+    n = 0
+    for f in W.fx.fn_list:
+        if f.derived or f.kind != 'method' or 'SessionBuilder' not in f.path or not f.path.split('::')[-1].startswith('with_'):
+            continue
+        cx = W.ctx(f)
+        for w in W.writes():
+            if w['fn'] is not f or w['kind'] != 'store' or w['ap'].root[0] != 'arg':
+                continue
+            tgt = w['ap'].s(f)
+            if not tgt.startswith('self.'):
+                continue
+            site = w['site']
+            if not hasattr(site, 'rv'):
+                continue
+            v = key(cx.expr_rvalue(site.rv))
+            n += 1
+            if re.search(r'(?:^|[^A-Za-z0-9_])self\.', v):
+                ob.fail('setter|%s|%s' % (short(f.path), tgt), '%s stores `%s := %s`: the stored value depends on another builder field, so the resulting configuration '
+                        'depends on the order in which the setters are called' % (short(f.path), tgt, v[:120]), where(f, w['line']))
+            else:
+                ob.ok('%s stores `%s := %s`' % (short(f.path), tgt, v[:60]), where(f, w['line']))
+    return n
+
+
 def rule(W, ob):
+    n5 = check_setters(W, ob)
+    ob.require_count(n5, 10, 'builder setters')
+    n4 = check_forwarded(W, ob)
+    ob.require_count(n4, 8, 'collections forwarded under their own name')
     n1 = check_calls(W, ob)
     n2 = check_constructions(W, ob)
     n3 = check_getters(W, ob)
